@@ -374,6 +374,49 @@ func runC15(planJSON []byte) (*RunResult, error) {
 		}
 	}
 
+	// A result handed to the caller must keep its bytes when the library is used again: a result
+	// that silently turns into another document's output is not "identical bytes for the same input".
+	checkRetention := func() {
+		if strings.TrimSpace(string(in)) == "" {
+			return
+		}
+		filler := []byte(strings.Repeat("<i>zz</i>&amp;", 2+len(in)/6))
+		p := BuildPolicy(pl.Recipe)
+		q := BuildPolicy(pl.Recipe)
+		var r1 []byte
+		var r2 *bytes.Buffer
+		var c1, c2 []byte
+		pan := guarded(func() {
+			r1 = p.SanitizeBytes(append([]byte{}, in...))
+			c1 = append([]byte{}, r1...)
+			r2 = p.SanitizeReader(bytes.NewReader(in))
+			if r2 != nil {
+				c2 = append([]byte{}, r2.Bytes()...)
+			}
+			// later, unrelated use of the same and of another policy
+			for i := 0; i < 3; i++ {
+				p.SanitizeBytes(filler)
+				_ = q.Sanitize(string(filler))
+				q.SanitizeReader(bytes.NewReader(filler))
+				var sink bytes.Buffer
+				p.SanitizeReaderToWriter(bytes.NewReader(filler), &sink)
+			}
+		})
+		res.Evals += 14
+		res.count("retention_checks", 1)
+		if pan != "" {
+			return // reported by the per-entry-point comparisons
+		}
+		pr := C15Probe{Entry: "SanitizeBytes", Trunc: -1}
+		if !bytes.Equal(r1, c1) {
+			viol(pr, "C15/result-overwritten-by-later-call", fmt.Sprintf("the slice returned by SanitizeBytes read %s when it was returned and reads %s after later, unrelated Sanitize* calls", clip(c1, 100), clip(r1, 100)), string(r1), string(c1))
+		}
+		if r2 != nil && !bytes.Equal(r2.Bytes(), c2) {
+			pr.Entry = "SanitizeReader"
+			viol(pr, "C15/result-overwritten-by-later-call", fmt.Sprintf("the buffer returned by SanitizeReader read %s when it was returned and reads %s after later, unrelated Sanitize* calls", clip(c2, 100), clip(r2.Bytes(), 100)), r2.String(), string(c2))
+		}
+	}
+
 	checkBlankSanitize := func() {
 		if !asciiBlank(in) {
 			return
@@ -415,6 +458,7 @@ func runC15(planJSON []byte) (*RunResult, error) {
 		switch pr.Entry {
 		case "SanitizeBytes":
 			checkBytes()
+			checkRetention()
 		case "Sanitize":
 			checkBlankSanitize()
 		case "cli":
@@ -430,6 +474,7 @@ func runC15(planJSON []byte) (*RunResult, error) {
 
 	checkBlankSanitize()
 	checkBytes()
+	checkRetention()
 	writers := []string{"sw", "plain", "buf", "builder"}
 	for _, s := range pl.Schedules {
 		compare(C15Probe{Entry: "SanitizeReader", Read: s, Trunc: -1})
